@@ -500,6 +500,39 @@ DIRECTED = [
      {'kind': 'toggle', 'opts': [False, False, 'saturate']},
      {'kind': 'ctor', 'cls': 'Bits', 's': 'ue=3', 'opts': [False, False, 'saturate']},
      {'kind': 'find', 'data': '0110' * 16, 's': '0b11', 'opts': [False, False, 'saturate']}],
+    # D(iii): every exp-Golomb token as a Dtype, in readlist / unpack / pack and as a literal: first in msb0, then in lsb0, then in msb0 again
+    [{'kind': 'dtype', 'tok': 'ue', 'len': None, 'opts': [False, False, 'saturate']},
+     {'kind': 'readlist', 'fmt': 'ue, bits', 'data': '0100110001001001110111001111000111111100', 'kw': {}, 'opts': [False, False, 'saturate']},
+     {'kind': 'dtype', 'tok': 'se', 'len': None, 'opts': [False, False, 'saturate']},
+     {'kind': 'readlist', 'fmt': 'se, bits', 'data': '0100110001001001110111001111000111111100', 'kw': {}, 'opts': [False, False, 'saturate']},
+     {'kind': 'dtype', 'tok': 'uie', 'len': None, 'opts': [False, False, 'saturate']},
+     {'kind': 'readlist', 'fmt': 'uie, bits', 'data': '0100110001001001110111001111000111111100', 'kw': {}, 'opts': [False, False, 'saturate']},
+     {'kind': 'dtype', 'tok': 'sie', 'len': None, 'opts': [False, False, 'saturate']},
+     {'kind': 'readlist', 'fmt': 'sie, bits', 'data': '0100110001001001110111001111000111111100', 'kw': {}, 'opts': [False, False, 'saturate']},
+     {'kind': 'unpack', 'fmt': 'se, uie, sie, bits', 'data': '0100110001001001110111001111000111111100', 'kw': {}, 'opts': [False, False, 'saturate']},
+     {'kind': 'toggle', 'opts': [True, False, 'saturate']},
+     {'kind': 'dtype', 'tok': 'ue', 'len': None, 'opts': [True, False, 'saturate']},
+     {'kind': 'readlist', 'fmt': 'ue, bits', 'data': '0100110001001001110111001111000111111100', 'kw': {}, 'opts': [True, False, 'saturate']},
+     {'kind': 'ctor', 'cls': 'Bits', 's': 'ue=3', 'opts': [True, False, 'saturate']},
+     {'kind': 'pack', 'fmt': 'ue, u4', 'vals': [3, 2], 'kw': {}, 'opts': [True, False, 'saturate']},
+     {'kind': 'dtype', 'tok': 'se', 'len': None, 'opts': [True, False, 'saturate']},
+     {'kind': 'readlist', 'fmt': 'se, bits', 'data': '0100110001001001110111001111000111111100', 'kw': {}, 'opts': [True, False, 'saturate']},
+     {'kind': 'ctor', 'cls': 'Bits', 's': 'se=3', 'opts': [True, False, 'saturate']},
+     {'kind': 'pack', 'fmt': 'se, u4', 'vals': [3, 2], 'kw': {}, 'opts': [True, False, 'saturate']},
+     {'kind': 'dtype', 'tok': 'uie', 'len': None, 'opts': [True, False, 'saturate']},
+     {'kind': 'readlist', 'fmt': 'uie, bits', 'data': '0100110001001001110111001111000111111100', 'kw': {}, 'opts': [True, False, 'saturate']},
+     {'kind': 'ctor', 'cls': 'Bits', 's': 'uie=3', 'opts': [True, False, 'saturate']},
+     {'kind': 'pack', 'fmt': 'uie, u4', 'vals': [3, 2], 'kw': {}, 'opts': [True, False, 'saturate']},
+     {'kind': 'dtype', 'tok': 'sie', 'len': None, 'opts': [True, False, 'saturate']},
+     {'kind': 'readlist', 'fmt': 'sie, bits', 'data': '0100110001001001110111001111000111111100', 'kw': {}, 'opts': [True, False, 'saturate']},
+     {'kind': 'ctor', 'cls': 'Bits', 's': 'sie=3', 'opts': [True, False, 'saturate']},
+     {'kind': 'pack', 'fmt': 'sie, u4', 'vals': [3, 2], 'kw': {}, 'opts': [True, False, 'saturate']},
+     {'kind': 'unpack', 'fmt': 'se, uie, sie, bits', 'data': '0100110001001001110111001111000111111100', 'kw': {}, 'opts': [True, False, 'saturate']},
+     {'kind': 'toggle', 'opts': [False, False, 'saturate']},
+     {'kind': 'dtype', 'tok': 'ue', 'len': None, 'opts': [False, False, 'saturate']},
+     {'kind': 'readlist', 'fmt': 'ue, bits', 'data': '0100110001001001110111001111000111111100', 'kw': {}, 'opts': [False, False, 'saturate']},
+     {'kind': 'dtype', 'tok': 'sie', 'len': None, 'opts': [False, False, 'saturate']},
+     {'kind': 'readlist', 'fmt': 'sie, bits', 'data': '0100110001001001110111001111000111111100', 'kw': {}, 'opts': [False, False, 'saturate']}],
 ]
 
 
